@@ -3,6 +3,7 @@ import TongoProofs.Lemmas.TlbStack
 import TongoProofs.Lemmas.TlbCanon
 import TongoProofs.Lemmas.TlbChain
 import TongoProofs.Lemmas.TlbOpBody
+import TongoProofs.Lemmas.TlbBitsRefine
 import TongoGen.TlbTypes
 import TongoGen.AbiOpcodes
 import TongoGen.IntTypes
@@ -515,6 +516,48 @@ example :
     (TongoGen.AbiOpcodes.inTable.byOp 0xf06c7567).map (·.1) = ["PaymentRequestResponse", "SubscriptionV2PaymentConfirmed"] ∧
     0xf06c7567 ∉ TongoGen.AbiOpcodes.inGood ∧ 0xd53276db ∈ TongoGen.AbiOpcodes.inGood := by
   decide +kernel
+
+/-! ## The layering: the ideal level of this model refines C06's specification of `boc.BitString`
+
+`Builder` / `Slice` are bit lists. C06 proves that the byte-level model of `boc.BitString` (shift loops, byte buffer,
+cursors) refines `Op.spec` on an ideal bit list. The theorems below close the gap: every bit-level writer / reader the
+TL-B model uses IS the corresponding `Op.spec` (`WriteRefines` / `ReadRefines`: same success or failure with the same
+error text, same bits, same value, same remaining bits), and composed with `C06.op_refines` the writer / reader acts
+on the byte-level model exactly as on the list (`builder_on_bitstring`, `slice_on_bitstring`). -/
+
+/-- **builder_refines_bitstring**: all writers, over the whole domain of `C06.Op.WF` (uint64 / int64 values, widths
+0..64 for WriteInt incl. the error cases of the repaired code, every width for the big-integer writers) -/
+theorem builder_refines_bitstring :
+    (∀ xs, WriteRefines (fun b => b.writeBits xs) (.writeBitArray xs)) ∧
+    (∀ x, WriteRefines (fun b => b.writeBit x) (.writeBit x)) ∧
+    (∀ v n, v < 2 ^ 64 → WriteRefines (fun b => b.writeUint v n) (.writeUint v n)) ∧
+    (∀ v n, n ≤ 64 → WriteRefines (fun b => b.writeInt v n) (.writeInt v n)) ∧
+    (∀ bs, WriteRefines (fun b => b.writeBytes bs) (.writeBytes bs)) ∧
+    (∀ v n, 0 ≤ v → WriteRefines (fun b => b.writeBigUint v n) (.writeBigUint v n)) ∧
+    (∀ v n, 1 ≤ n → -(2 : Int) ^ (n - 1) ≤ v → v < (2 : Int) ^ (n - 1) →
+      WriteRefines (fun b => b.writeBigInt v n) (.writeBigInt v n)) ∧
+    (∀ v n, v < 2 ^ 64 → WriteRefines (fun b => b.writeLimUint v n) (.writeLimUint v n)) ∧
+    (∀ n, WriteRefines (fun b => b.writeUnary n) (.writeUnary n)) :=
+  ⟨writeBits_refines, writeBit_refines, writeUint_refines, writeInt_refines, writeBytes_refines,
+   writeBigUint_refines, writeBigInt_refines, writeLimUint_refines, writeUnary_refines⟩
+
+/-- **slice_refines_bitstring**: all readers, every width (the width errors included) -/
+theorem slice_refines_bitstring :
+    (∀ n, ReadRefines (fun s => s.readBits n) (.readBits n) Out.bits) ∧
+    ReadRefines (fun s => s.readBit) .readBit Out.bool ∧
+    (∀ n, ReadRefines (fun s => s.readUint n) (.readUint n) Out.nat) ∧
+    (∀ n, ReadRefines (fun s => s.readInt n) (.readInt n) Out.int) ∧
+    (∀ n, ReadRefines (fun s => s.readBytes n) (.readBytes n) Out.bytes) ∧
+    (∀ n, ReadRefines (fun s => s.readBigUint n) (.readBigUint n) (fun v => Out.nat v.toNat)) ∧
+    (∀ n, ReadRefines (fun s => s.readBigInt n) (.readBigInt n) Out.int) ∧
+    (∀ n, n < 2 ^ 64 → ReadRefines (fun s => s.readLimUint n) (.readLimUint n) Out.nat) ∧
+    ReadRefines (fun s => s.readUnary) .readUnary Out.nat :=
+  ⟨readBits_refines, readBit_refines, readUint_refines, readInt_refines, readBytes_refines, readBigUint_refines,
+   readBigInt_refines, readLimUint_refines, readUnary_refines⟩
+
+/-- the stale cases the audit named: `writeInt 5 1` and `writeInt _ 0` are errors, as in the repaired Go (TESTS) -/
+example : (Builder.empty.writeInt 5 1).isOk = false ∧ (Builder.empty.writeInt 5 0).isOk = false ∧
+    (Builder.empty.writeInt (-1) 1).isOk = true ∧ (Builder.empty.writeInt 0 1).isOk = true := by decide
 
 /-- the key descriptors a dictionary admits: exactly those with a fixed width -/
 theorem hashmap_key_widths :
